@@ -19,9 +19,10 @@ Proof.
     | |- context [live_at vs ?i] => destruct (live_at vs i) as [?d|] eqn:?; cbn [option_map]
     | |- context [dead_at vs ?i] => destruct (dead_at vs i) eqn:?
     | |- context [eng ?d] => destruct d as [[|] ?elt]; cbn [eng ov abs_opt]
-    | |- context [match ?s with Some _ => _ | None => _ end] => destruct s
-    end; cbn [fst snd abs_cell abs_opt eng ov val fresh]; vars_simp; try reflexivity.
-Show. all: fail.
+    | |- context [match ?s with Some _ => _ | None => _ end] => is_var s; destruct s
+    end; cbn [fst snd abs_cell abs_opt eng ov val fresh app]; vars_simp; try reflexivity;
+    try (match goal with H : live_at vs ?i = Some ?h |- context [wr (map _ vs) ?i _] =>
+           f_equal; apply wr_same; rewrite nth_error_map, (live_at_Some _ _ _ H); reflexivity end).
 Qed.
 
 Theorem optional_refines_std (k : ekind) (n : nat) (ops : list oop) :
@@ -31,3 +32,47 @@ Proof.
   pose proof (run_sim (ostep k) rostep (map (abs_cell abs_opt)) (ostep_sim k) ops (ovars0 n)) as H.
   cbn zeta in H. unfold ovars0 in *. rewrite map_repeat_dead in H. exact H.
 Qed.
+
+(* ------------------------------------------------------------------ C16: the lifetime log *)
+Lemma opt_dtor_spec i h : opt_dtor i h = if eng h then [EDestroy (sv i)] else [].
+Proof. reflexivity. Qed.
+
+Ltac sym_go :=
+  cbn [sym_run sym_step snd fst app];
+  repeat (objs_simp;
+          repeat match goal with H : live_at _ _ = _ |- _ => rewrite H end;
+          cbn [eng sym_run sym_step]; cbn beta).
+
+Ltac pt_close engf :=
+  let x := fresh "x" in
+  intros x; cbn [fst snd];
+  repeat first [ rewrite (hlive_upd engf) by (intros; reflexivity) | rewrite (hlive_wr engf) by lt_vars ];
+  cbn beta;
+  repeat match goal with
+         | |- context [obj_eqb ?o x] => rewrite (obj_eqb_sym o x)
+         end;
+  repeat match goal with
+         | |- context [obj_eqb x ?o] =>
+           let E := fresh "E" in destruct (obj_eqb x o) eqn:E; [apply obj_eqb_eq in E; subst x|]
+         end;
+  objs_simp;
+  repeat match goal with H : live_at _ _ = _ |- _ => rewrite H end;
+  cbn [eng andb orb negb]; try reflexivity.
+
+Lemma ostep_log_ok k vs o : exists L',
+  sym_run (hlive eng vs) (snd (ostep k vs o)) = Some L' /\
+  forall x, L' x = hlive eng (fst (fst (ostep k vs o))) x.
+Proof.
+  destruct o; cbn [ostep]; unfold opt_assign, opt_assign_from, opt_access, oskip, mark_src;
+    repeat match goal with
+    | |- context [live_at vs ?i] => destruct (live_at vs i) as [?d|] eqn:?
+    | |- context [dead_at vs ?i] => let E := fresh "Hd" in destruct (dead_at vs i) eqn:E; [pose proof (dead_live _ _ E)|]
+    | |- context [eng ?d] => is_var d; destruct d as [[|] ?elt]; cbn [eng ov]
+    | |- context [match ?s with Some _ => _ | None => _ end] => is_var s; destruct s
+    end;
+    (eexists; split; [sym_go; reflexivity | pt_close (@eng)]).
+Qed.
+
+Theorem optional_log_wf (k : ekind) (n : nat) (ops : list oop) :
+  wf_closed (snd (orun k (ovars0 n) ops) ++ ofinish (fst (fst (orun k (ovars0 n) ops)))) = true.
+Proof. exact (closed_log (@eng) (ostep k) opt_dtor opt_dtor_spec (ostep_log_ok k) n ops). Qed.
